@@ -1,5 +1,6 @@
 SPECIFICATION Spec
-CONSTANTS N = 2
+CONSTANTS MayCrash = FALSE
+          N = 2
           K1 = "ack"
           K2 = "ff"
           K3 = "ff"
